@@ -43,7 +43,7 @@ ResetTo(x) ==
   /\ qtick' = 1
   /\ queue' = <<>> /\ running' = FALSE
   /\ veto' = {} /\ nest' = <<>>
-  /\ pan' = {} /\ stall' = {} /\ wedged' = FALSE
+  /\ pan' = {} /\ stall' = {} /\ wedged' = FALSE /\ backoff' = FALSE
   /\ first' = "none" /\ atCall' = None /\ firstTx' = None
   /\ prev' = None /\ obs' = [kind |-> "init"]
   /\ verdict' = AllTrue
@@ -77,6 +77,12 @@ EvCall ==
            IF "stall" \in DOMAIN Line THEN PairSet(Line.stall) ELSE {})
   /\ callStart' = l
   /\ UNCHANGED <<viol, drift, ntx>>
+
+(* the driver switched the backoff on / off (Machine.LastHandlerDeadline)      *)
+EvEnv ==
+  /\ Line.ev = "env"
+  /\ SetBackoff(Line.backoff)
+  /\ UNCHANGED <<viol, drift, ntx, callStart>>
 
 LoggedObs(x) ==
   [kind |-> "tx",
@@ -147,7 +153,7 @@ EvTx ==
         /\ qtick' = o.qtick
         /\ queue' = excs \o autoq
                      \o NestedAppend(IF queue = <<>> THEN <<>> ELSE Tail(queue), o.hlog, qt)
-        /\ wedged' = r.wedged
+        /\ wedged' = r.wedged /\ backoff' = backoff
         /\ first' = IF first = "none" THEN r.result ELSE first
         /\ firstTx' = IF firstTx = None THEN o ELSE firstTx
         /\ prev' = p
@@ -176,6 +182,7 @@ EvRet ==
          o == [kind |-> "ret", res |-> x.res, mtime |-> x.time,
                call |-> [mut |-> atCall.mut, res |-> x.res,
                          selfMutating |-> nest # <<>> \/ CallPan # {} \/ CallStall # {},
+                         refused |-> atCall.refused,
                          before |-> atCall.active, tb |-> atCall.time, qb |-> atCall.qtick,
                          after |-> x.active, ta |-> x.time, qa |-> x.qtick,
                          after1 |-> IF firstTx = None THEN x.active ELSE firstTx.after,
@@ -227,7 +234,7 @@ EvRet ==
         /\ viol' = viol \cup {<<l, f>> : f \in Fails(v)}
         /\ drift' = drift \cup {<<l, f>> : f \in d}
         /\ first' = "none" /\ atCall' = None /\ firstTx' = None
-        /\ UNCHANGED <<cfgVars, veto, nest, pan, stall, wedged, ncalls, ntx, callStart>>
+        /\ UNCHANGED <<cfgVars, veto, nest, pan, stall, wedged, backoff, ncalls, ntx, callStart>>
 
 EvStray ==   \* a tracer / handler callback outside any transition
   /\ Line.ev = "stray"
@@ -242,7 +249,7 @@ Done ==
 
 TraceNext ==
   \/ /\ l <= Len(Trace)
-     /\ (EvInit \/ EvCall \/ EvTx \/ EvRet \/ EvStray)
+     /\ (EvInit \/ EvCall \/ EvTx \/ EvRet \/ EvStray \/ EvEnv)
      /\ l' = l + 1
   \/ (Done /\ l' = l + 1)
 
